@@ -356,17 +356,42 @@ class Installed:
 
     def __enter__(self):
         from hio.core.tcp import clienting, serving
+        from hio.core import coring
         self.mods = (clienting, serving)
         self.saved = [m.socket for m in self.mods]
         ns = SocketModule(self.net)
         for m in self.mods:
             m.socket = ns
+        self.coring, self.saved_coring = coring, coring.socket
+        coring.socket = ResolverModule()
         return self.net
 
     def __exit__(self, *exc):
         for m, s in zip(self.mods, self.saved):
             m.socket = s
+        self.coring.socket = self.saved_coring
         return False
+
+
+class ResolverModule:
+    """stand-in for the `socket` module global of hio.core.coring (host name normalisation): name resolution is owned by the
+    harness - numeric addresses resolve as the real resolver does without DNS (AI_NUMERICHOST), 'localhost' is 127.0.0.1 / ::1,
+    every other name is unknown (gaierror EAI_NONAME), whatever the machine's DNS would say"""
+
+    def __init__(self):
+        for k in dir(_real):
+            if k.isupper():
+                setattr(self, k, getattr(_real, k))
+        self.error = OSError
+        self.gaierror = _real.gaierror
+
+    def getaddrinfo(self, host, port, family=0, type=0, proto=0, flags=0):
+        if host == "localhost":
+            host = "::1" if family == _real.AF_INET6 else "127.0.0.1"
+        try:
+            return _real.getaddrinfo(host, port, family, type, proto, flags | _real.AI_NUMERICHOST)
+        except _real.gaierror:
+            raise _real.gaierror(_real.EAI_NONAME, "fakenet: Name or service not known")
 
 
 # ---------------------------------------------------------------------------
